@@ -243,7 +243,10 @@ def place(r, expr, stmt, value_fn, allow_return):
 def build_graph(r, spec, namer, nfuncs, stages, entries_per_stage=(1, 2), shape=None,
                 unreached=0.12, accesses_per_global=(0, 3)):
     """helpers f0..f(n-1) (f_k may call f_j, j<k), entry points, accesses assigned at random."""
-    shape = shape or r.choice(["random", "random", "chain", "diamond", "fan", "layers"])
+    shape = shape or r.choice(["random", "xstage", "chain", "diamond", "fan", "layers", "xstage",
+                               "xstage"])
+    if shape == "xstage":
+        nfuncs = max(nfuncs, r.randint(4, 8))
     funcs = [Func(namer.fresh("fn_"), r.random() < 0.55) for _ in range(nfuncs)]
     spec.funcs = funcs
     used_return = set()
@@ -274,6 +277,10 @@ def build_graph(r, spec, namer, nfuncs, stages, entries_per_stage=(1, 2), shape=
             cs = [funcs[0]] if k > 0 and r.random() < 0.8 else []
         elif shape == "layers":
             cs = r.sample(funcs[:k], min(k, r.randint(1, 3)))
+        elif shape == "xstage":
+            # the first third are leaves; the others call 1-3 earlier functions
+            nleaf = max(1, nfuncs // 3)
+            cs = [] if k < nleaf else r.sample(funcs[:k], min(k, r.randint(1, 3)))
         else:
             cs = r.sample(funcs[:k], min(k, r.choice([0, 1, 1, 2])))
         for c in cs:
@@ -288,6 +295,8 @@ def build_graph(r, spec, namer, nfuncs, stages, entries_per_stage=(1, 2), shape=
         if funcs:
             if shape in ("chain", "diamond"):
                 cs = [funcs[-1]] if r.random() < 0.85 else []
+            elif shape == "xstage":
+                cs = r.sample(funcs, min(len(funcs), r.randint(1, 3)))
             else:
                 cs = r.sample(funcs, min(len(funcs), r.choice([0, 1, 1, 2, 3])))
             for c in cs:
@@ -308,6 +317,8 @@ def build_graph(r, spec, namer, nfuncs, stages, entries_per_stage=(1, 2), shape=
                 if not cands:
                     continue
             h = r.choice(cands)
+            if shape == "xstage" and cands is holders and r.random() < 0.75:
+                h = r.choice(funcs[:max(1, nfuncs // 3)])
             value_fn = isinstance(h, Func) and h.returns_value
             if e is not None and s is not None:
                 if r.random() < 0.5:
